@@ -309,7 +309,7 @@ func (s *linst) observe() *mc.Failure {
 		return mc.Failf(0, "IsEmpty=%v with %d elements", s.lst.IsEmpty(), n)
 	}
 	var got []int
-	s.lst.Each(func(v int) bool { got = append(got, v); return true })
+	s.lst.Each(func(v int) bool { got = append(got, v); return len(got) <= len(s.ids)+2 })
 	if fmt.Sprint(got) != fmt.Sprint(s.ids) {
 		return mc.Failf(0, "Each=%v want %v", got, s.ids)
 	}
@@ -483,7 +483,7 @@ func (s *seqInst) Apply(o sop, check bool) *mc.Failure {
 			return mc.Failf(0, "stack Slice=%v want %v", sl, s.ref)
 		}
 		var each []int
-		s.st.Each(func(v int) bool { each = append(each, v); return true })
+		s.st.Each(func(v int) bool { each = append(each, v); return len(each) <= n+2 })
 		if fmt.Sprint(each) != fmt.Sprint(append([]int{}, s.ref...)) && !(n == 0 && len(each) == 0) {
 			return mc.Failf(0, "stack Each=%v want %v", each, s.ref)
 		}
@@ -537,7 +537,7 @@ func (s *seqInst) Apply(o sop, check bool) *mc.Failure {
 		}
 	}
 	var each []int
-	s.q.Each(func(v int) bool { each = append(each, v); return true })
+	s.q.Each(func(v int) bool { each = append(each, v); return len(each) <= len(s.ref)+2 })
 	if len(each) != n || (n > 0 && fmt.Sprint(each) != fmt.Sprint(s.ref)) {
 		return mc.Failf(0, "queue Each=%v want %v", each, s.ref)
 	}
